@@ -1579,7 +1579,7 @@ class SingleItemDecoder(object):
 
         if TRACE is not None:
             cid = len(TRACE)
-            TRACE.append((cid, 'enter', state, allowEoo, asn1Spec, tagSet, substrateFun))
+            TRACE.append((cid, 'enter', state, allowEoo, asn1Spec, tagSet, substrateFun, substrate.tell()))
 
         if LOG:
             LOG('decoder called at scope %s with state %d, working with up '
@@ -1597,7 +1597,7 @@ class SingleItemDecoder(object):
                 if LOG:
                     LOG('end-of-octets sentinel found')
                 if TRACE is not None:
-                    TRACE.append((cid, 'eoo'))
+                    TRACE.append((cid, 'eoo', substrate.tell()))
                 yield eoo.endOfOctets
                 return
 
@@ -1739,7 +1739,7 @@ class SingleItemDecoder(object):
 
             if state is stGetValueDecoder:
                 if TRACE is not None:
-                    TRACE.append((cid, 'state', state, tagSet, length))
+                    TRACE.append((cid, 'state', state, tagSet, length, substrate.tell()))
                 if asn1Spec is None:
                     state = stGetValueDecoderByTag
 
@@ -1935,7 +1935,7 @@ class SingleItemDecoder(object):
             LOG('decoder left scope %s, call completed' % debug.scope)
 
         if TRACE is not None:
-            TRACE.append((cid, 'exit', value))
+            TRACE.append((cid, 'exit', value, substrate.tell()))
 
         yield value
 
